@@ -177,6 +177,25 @@ theorem posHasher_additive : Additive posHasher := by
   have : a + (b - a + k) = b + k := by omega
   rw [this]
 
+theorem posHasher_local (ov : Nat) : Local posHasher ov := by
+  intro h d d' a b hd
+  simp only [posHasher, List.append_cancel_left_eq]
+  apply List.map_congr_left
+  intro k hk
+  simp only [List.mem_range] at hk
+  have hi : a + k < b + ov := by omega
+  have e1 : d.getD (a + k) 0 = (d.take (b + ov)).getD (a + k) 0 := by
+    simp only [List.getD_eq_getElem?_getD, List.getElem?_take, if_pos hi]
+  have e2 : d'.getD (a + k) 0 = (d'.take (b + ov)).getD (a + k) 0 := by
+    simp only [List.getD_eq_getElem?_getD, List.getElem?_take, if_pos hi]
+  rw [e1, e2, hd]
+
+/-- non-vacuity of `favor_cpu_equiv`: the reference hasher meets both hypotheses, so for every
+input, thread count and job with an untruncated prefix its shared and own index coincide -/
+example (input : List Nat) (t n j : Nat) (h : bnd t n (j + 1) ≤ 2 ^ 22 - 16) :
+    (prebuilt posHasher input t n 3 (j + 1)).1 = selfbuilt posHasher input (bnd t n (j + 1)) 22 5 3 :=
+  favor_cpu_equiv posHasher 3 posHasher_additive (posHasher_local 3) input t n 22 5 j (by decide) (by decide) h
+
 theorem favor_needs_untruncated :
     (prebuilt posHasher (List.range 60) 2 60 3 1).1 ≠ selfbuilt posHasher (List.range 60) (bnd 2 60 1) 5 5 3 ∧
     (dictPlan (bnd 2 60 1) 5 5) = ⟨true, 14, 16⟩ := by
